@@ -5,6 +5,7 @@ extern crate self as refmodel;
 
 pub mod big;
 pub mod engine;
+pub mod floatspec;
 pub mod json;
 pub mod prim;
 pub mod sets;
